@@ -146,7 +146,16 @@ pcgstrf_thread_init(SuperMatrix *A, SuperMatrix *L, SuperMatrix *U,
 
     /* Allocate global storage common to all the factor routines */
     *info = pcgstrf_MemInit(n, Astore->nnz, options, L, U, &Glu);
-    if ( *info ) return NULL;
+    if ( *info ) {
+	/* Workspace query, or the initial allocation failed: nothing has
+	   been factored; release what was set up above. */
+	ParallelFinalize(pxgstrf_shared);
+	SUPERLU_FREE(inv_perm_r);
+	SUPERLU_FREE(inv_perm_c);
+	SUPERLU_FREE(xprune);
+	SUPERLU_FREE(ispruned);
+	return NULL;
+    }
 
     /* Prepare arguments to all threads. */
     pcgstrf_threadarg = (pcgstrf_threadarg_t *) 
